@@ -221,6 +221,48 @@ func c14Run(f []string) (ans string) {
 		}
 		tw.WriteFooter(0, "F")
 		return c14Lines(vt)
+	case "histow":
+		// col uni sc fmt bar pct maxLines script: any sequence of WriteForLine / UpdateTotal calls on one HistoWriter
+		// (script steps `<line>:<hex key>:<val>` or `T:<total>`); a line equal to len(items) indexes out of range
+		c14Globals(f[1], f[2])
+		maxLines, _ := strconv.Atoi(f[7])
+		vt := multiterm.NewVirtualTerm()
+		w := termrenderers.NewHistogram(vt, maxLines)
+		w.ShowBar = c14Bool(f[5])
+		w.ShowPercentage = c14Bool(f[6])
+		w.Scaler = c14Scaler(f[3])
+		w.Formatter = c14Formatter(f[4])
+		panicked := false
+		func() {
+			defer func() {
+				if r := recover(); r != nil {
+					if _, ok := r.(c14CompileError); ok {
+						panic(r)
+					}
+					panicked = true
+				}
+			}()
+			if f[8] != "." {
+				for _, st := range strings.Split(f[8], "/") {
+					p := strings.Split(st, ":")
+					if p[0] == "T" {
+						w.UpdateTotal(c14I64(p[1]))
+						continue
+					}
+					n, _ := strconv.Atoi(p[0])
+					w.WriteForLine(n, string(UnHex(p[1])), c14I64(p[2]))
+				}
+			}
+			w.WriteFooter(0, "F")
+		}()
+		if panicked {
+			return "panic"
+		}
+		lines := make([]string, vt.LineCount())
+		for i := range lines {
+			lines[i] = c14PctRe.ReplaceAllString(vt.Get(i), "[P%]")
+		}
+		return "ok " + HexListS(lines)
 	case "render":
 		return c14Render(f[1:])
 	}
@@ -776,8 +818,109 @@ func c14GenRender(r *Rand) string {
 	}
 }
 
+// any sequence of WriteForLine / UpdateTotal calls: lines in any order, rewritten, beyond the histogram, zero and
+// negative values, keys that widen the key column, values that raise the running maximum
+func c14GenHistoW(r *Rand) string {
+	maxLines := r.Intn(6)
+	n := r.Intn(8)
+	mode := r.Intn(7)
+	keys := c14Keys(r, 1+r.Intn(5))
+	var steps []string
+	for i := 0; i < n; i++ {
+		if r.Chance(1, 6) {
+			steps = append(steps, fmt.Sprintf("T:%d", c14Inc(r, mode)))
+			continue
+		}
+		line := r.Intn(maxLines + 1)
+		switch {
+		case r.Chance(1, 12):
+			line = maxLines + 1 + r.Intn(3) // ignored
+		case r.Chance(1, 40):
+			line = maxLines // the off-by-one of WriteForLine: index out of range (model: panic)
+		case line == maxLines:
+			line = r.Intn(maxLines + 1)
+			if line == maxLines {
+				line = maxLines + 1
+			}
+		}
+		v := c14Inc(r, mode)
+		if r.Chance(1, 4) {
+			v = c14Val(r)
+		}
+		steps = append(steps, fmt.Sprintf("%d:%s:%d", line, HexS(Pick(r, keys)), v))
+	}
+	sc := "."
+	if len(steps) > 0 {
+		sc = strings.Join(steps, "/")
+	}
+	return fmt.Sprintf("histow %s %s %s %s %s %s %d %s", c14B(r), c14B(r), Pick(r, c14Scalers), c14Fmt(r), c14B(r), c14B(r), maxLines, sc)
+}
+
+// triples where the float rounding matters: huge ends (2^52 … 2^63), tiny spans, values at and next to the ends
+func c14F64Triple(r *Rand) (int64, int64, int64) {
+	k := uint(52 + r.Intn(12))
+	var base int64
+	if k >= 63 {
+		base = math.MaxInt64 - int64(r.Intn(5))
+	} else {
+		base = int64(1)<<k + int64(r.Range(-3, 3))
+	}
+	if r.Chance(1, 4) {
+		base = -base
+	}
+	var span uint64
+	switch r.Intn(5) {
+	case 0:
+		span = 0
+	case 1:
+		span = uint64(r.Intn(4))
+	case 2:
+		span = uint64(1) << uint(r.Intn(12))
+	case 3:
+		span = uint64(1)<<uint(40+r.Intn(23)) + uint64(r.Intn(3))
+	default:
+		span = r.U64() >> uint(r.Intn(20))
+	}
+	mn := base
+	mx := int64(uint64(mn) + span)
+	if mx < mn { // wrapped: use the top of the range
+		mx = math.MaxInt64
+	}
+	var v int64
+	switch r.Intn(6) {
+	case 0:
+		v = mn
+	case 1:
+		v = mx
+	case 2:
+		v = int64(uint64(mn) + span/2)
+	case 3:
+		v = mx - int64(r.Intn(3))
+	case 4:
+		v = mn + int64(r.Intn(3))
+	default:
+		if span == math.MaxUint64 {
+			v = int64(r.U64())
+		} else {
+			v = int64(uint64(mn) + r.U64()%(span+1))
+		}
+	}
+	if r.Chance(1, 10) {
+		v += int64(r.Range(-1, 1))
+	}
+	return v, mn, mx
+}
+
 func c14GenSmall(r *Rand) string {
-	switch r.Intn(9) {
+	switch r.Intn(11) {
+	case 9:
+		return c14GenHistoW(r)
+	case 10:
+		v, mn, mx := c14F64Triple(r)
+		if r.Chance(1, 3) {
+			return fmt.Sprintf("cell %s %s %s %d %d %d", c14B(r), c14B(r), Pick(r, c14Scalers), v, mn, mx)
+		}
+		return fmt.Sprintf("scale %s %d %d %d", Pick(r, c14Scalers), v, mn, mx)
 	case 8:
 		return c14GenFmtSeq(r)
 	case 0, 1:
@@ -934,6 +1077,31 @@ func c14Gen(r *Rand, tier string) []string {
 			}
 		}
 		recT(nil)
+		// exhaustive: WriteForLine / UpdateTotal scripts of up to three steps on a histogram of two lines: both lines, the
+		// off-by-one line (panic), a line beyond, a short and a column-widening key, values 0 / 3 / 7, a total
+		var hsteps []string
+		for line := 0; line <= 3; line++ {
+			for _, k := range []string{"a", "seventeen-chars-k"} {
+				for _, v := range []int{0, 3, 7} {
+					hsteps = append(hsteps, fmt.Sprintf("%d:%s:%d", line, HexS(k), v))
+				}
+			}
+		}
+		hsteps = append(hsteps, "T:5")
+		var recH func(steps []string)
+		recH = func(steps []string) {
+			if len(steps) > 0 {
+				for _, uni := range []string{"0", "1"} {
+					out = append(out, fmt.Sprintf("histow 0 %s linear raw 1 1 2 %s", uni, strings.Join(steps, "/")))
+				}
+			}
+			if len(steps) < 3 {
+				for _, st := range hsteps {
+					recH(append(append([]string{}, steps...), st))
+				}
+			}
+		}
+		recH(nil)
 	}
 	return out
 }
@@ -980,6 +1148,23 @@ func c14Stats(cases []string) map[string]int {
 				if len(f) > 4 && (f[3] == s || f[4] == s) {
 					st["render.logScale"]++
 				}
+			}
+		}
+		if op == "scale" || op == "cell" || op == "barw" {
+			// float rounding territory: an end of the range at or above 2^53 in magnitude
+			for _, x := range f[len(f)-2:] {
+				if v, err := strconv.ParseInt(x, 10, 64); err == nil && (v >= 1<<53 || v <= -(1<<53)) {
+					st["scale.hugeEnd(>=2^53)"]++
+					break
+				}
+			}
+			if f[len(f)-2] == f[len(f)-1] {
+				st["scale.degenerateRange"]++
+			}
+		}
+		if op == "histow" {
+			if strings.Contains(c, ":0/") || strings.HasSuffix(c, ":0") || strings.Contains(c, ":-") {
+				st["histow.nonPositiveValue"]++
 			}
 		}
 		st["op."+op]++
